@@ -136,3 +136,18 @@ Fixpoint tree_size (t : tree) : nat :=
   match t with
   | Node _ _ cs => S ((fix sum (l : list tree) : nat := match l with [] => O | c :: l' => (tree_size c + sum l')%nat end) cs)
   end.
+
+(* ------------------------------------------------------------------------------------------ the shape predicate *)
+
+(* `Shape t`: every pair of t has inner pairs that form a word of the language computed from the grammar
+   for its rule, recursively.  (`shapeb` is its decision procedure: Proofs/C19Proofs.v shapeb_sound.) *)
+Inductive Shape : tree -> Prop :=
+| Shape_node : forall r txt cs, Kids (child_rx r) cs -> Shape (Node r txt cs)
+with Kids : rx -> list tree -> Prop :=
+| K_eps : Kids REps []
+| K_sym : forall r c, root c = r -> Shape c -> Kids (RSym r) [c]
+| K_seq : forall a b l1 l2, Kids a l1 -> Kids b l2 -> Kids (RSeq a b) (l1 ++ l2)
+| K_altl : forall a b l, Kids a l -> Kids (RAlt a b) l
+| K_altr : forall a b l, Kids b l -> Kids (RAlt a b) l
+| K_star0 : forall a, Kids (RStar a) []
+| K_star1 : forall a l1 l2, Kids a l1 -> Kids (RStar a) l2 -> Kids (RStar a) (l1 ++ l2).
